@@ -22,5 +22,8 @@ for pid in props:
         (names if o['status'] == 'proved' else bad).append(o['name'])
     if chk.broken:
         print('BROKEN', pid, chk.broken[:2])
+    for u in chk.undecided:
+        if 'obligation-count' not in u['name']:
+            print('UNDECIDED', pid, u['name'], u['why'][:200])
 json.dump(sorted(set(names)), open(base.BASELINE, 'w'), indent=0)
 print(len(set(names)), 'obligations in the baseline;', len(bad), 'not discharged:', bad[:20])
